@@ -67,15 +67,24 @@ Definition pad_facts (R : ring) (s1 : slot) (rest : list slot) (L : Z) : Prop :=
   (s_len s1 < 0 -> L = - s_len s1) /\
   (s_len s1 = 0 -> r_head R mod r_cap R + align L 8 < r_cap R).
 
-Theorem after_pad lo cfg s1 rest L : Inv lo cfg -> head' (g_ring cfg) (g_cons cfg) = r_head (g_ring cfg) ->
+(* the shape of the two descriptions: the slots as the model holds them after the store are the head slot with the
+   padding header followed by blank slots `pre`, then `suffix`; the padding slot spans exactly head slot + `pre` *)
+Definition pad_shape (R : ring) (s1 : slot) (rest : list slot) (L : Z) (swept suffix : list slot) (pad : slot) : Prop :=
+  exists pre, swept = s1 :: pre /\ rest = pre ++ suffix /\ Forall (fun x => s_len x = 0 /\ s_type x = 0 /\ s_body x = []) pre /\
+    pad = mkSlot (r_head R) (align L 8) L PAD (s_body s1) (s_owner s1) (-1) /\
+    tiled (r_cap R) (r_head R) (r_head R + align L 8) swept /\
+    tiled (r_cap R) (r_head R + align L 8) (r_tail R) suffix.
+
+Theorem after_pad_full lo cfg s1 rest L : Inv lo cfg -> head' (g_ring cfg) (g_cons cfg) = r_head (g_ring cfg) ->
   (c_pc (g_cons cfg) = CReadHead \/ c_pc (g_cons cfg) = CDone) ->
   let R := g_ring cfg in
   pad_facts R s1 rest L ->
   exists swept suffix pad,
     r_slots R = swept ++ suffix /\ swept <> [] /\ Forall (fun s => s_len s <= 0 /\ s_pos s < r_head R + align L 8) swept /\
     s_type pad = PAD /\ s_pos pad = r_head R /\ s_span pad = span_sum swept /\ s_seq pad = -1 /\
-    let cfg' := mkCfg (set_slots R (pad :: suffix)) (g_cons cfg) (retire swept (g_prods cfg)) in
-    Inv lo cfg' /\ render (g_ring cfg') = render (set_slots R (set_hdr L PAD s1 :: rest)).
+    (let cfg' := mkCfg (set_slots R (pad :: suffix)) (g_cons cfg) (retire swept (g_prods cfg)) in
+     Inv lo cfg' /\ render (g_ring cfg') = render (set_slots R (set_hdr L PAD s1 :: rest))) /\
+    pad_shape R s1 rest L swept suffix pad.
 Proof.
   intros HI Hh' Hid. cbn zeta. set (R := g_ring cfg). fold R in Hh'.
   intros (Es & Hneg & HL & Hfit & Hend & Hb & Hblank & Hnegl & Hstrict).
@@ -114,6 +123,12 @@ Proof.
   { pose proof (tiled_range _ _ _ _ Tsw) as RgS. rewrite Forall_forall in Hsw0, RgS |- *. intros y Hy.
     split; [exact (Hsw0 y Hy) |]. destruct (RgS y Hy) as (_ & Yb & (_ & _ & Ys & _)). lia. }
   split; [reflexivity |]. split; [reflexivity |]. split; [cbn [pad s_span]; lia |]. split; [reflexivity |].
+  assert (SHAPE : pad_shape R s1 rest L swept suffix pad).
+  { exists pre. split; [reflexivity |]. split; [exact Erest |]. split.
+    - apply Forall_forall. intros x Hx. rewrite Forall_forall in Hpre0. pose proof (Hpre0 x Hx) as H0.
+      destruct (slot_state lo cfg x HI ltac:(fold R; rewrite Es, Erest; right; apply in_or_app; left; exact Hx)) as [P | [(N & _) | B]]; [lia | lia | exact B].
+    - split; [reflexivity |]. split; [exact Tsw | exact Tsuf]. }
+  split; [| exact SHAPE].
   cbn zeta.
   pose proof (ext_retire swept (g_prods cfg)) as X.
   (* every swept slot belongs to a producer in flight, and that producer owns nothing else *)
@@ -188,6 +203,19 @@ Proof.
       intros x Hx. fold R. rewrite Es, Erest. right. apply in_or_app. left. assumption. }
     rewrite Epre. reflexivity.
 Qed.
+
+Theorem after_pad lo cfg s1 rest L : Inv lo cfg -> head' (g_ring cfg) (g_cons cfg) = r_head (g_ring cfg) ->
+  (c_pc (g_cons cfg) = CReadHead \/ c_pc (g_cons cfg) = CDone) ->
+  let R := g_ring cfg in
+  pad_facts R s1 rest L ->
+  exists swept suffix pad,
+    r_slots R = swept ++ suffix /\ swept <> [] /\ Forall (fun s => s_len s <= 0 /\ s_pos s < r_head R + align L 8) swept /\
+    s_type pad = PAD /\ s_pos pad = r_head R /\ s_span pad = span_sum swept /\ s_seq pad = -1 /\
+    let cfg' := mkCfg (set_slots R (pad :: suffix)) (g_cons cfg) (retire swept (g_prods cfg)) in
+    Inv lo cfg' /\ render (g_ring cfg') = render (set_slots R (set_hdr L PAD s1 :: rest)).
+Proof. intros HI Hh Hid. cbn zeta. intros PF.
+  destruct (after_pad_full lo cfg s1 rest L HI Hh Hid PF) as (swept & suffix & pad & A & B & C & D1 & D2 & D3 & D4 & D5 & _).
+  exists swept, suffix, pad. auto 10. Qed.
 
 Theorem after_unblock lo cfg : Inv lo cfg -> cons_idle (g_cons cfg) ->
   let R := g_ring cfg in
